@@ -82,7 +82,12 @@ def main():
             code = 0
             try:
                 try:
-                    req = _read_frame(REQ_FD)
+                    import json
+
+                    # the request is canonical JSON text, parsed here: the child's allocation history
+                    # (hence which addresses get recycled later) is a function of the request's
+                    # *content*, not of how the caller happened to hold it in memory
+                    req = json.loads(_read_frame(REQ_FD))
                     from sim.executor import run_ops
 
                     out = ("ok", run_ops(*req))
@@ -184,7 +189,9 @@ class Zygote:
                 self.proc = None
                 self.req_w = self.res_r = None
             self._start()
-        data = pickle.dumps(args, protocol=pickle.HIGHEST_PROTOCOL)
+        import json
+
+        data = pickle.dumps(json.dumps(list(args), sort_keys=True), protocol=pickle.HIGHEST_PROTOCOL)
         os.write(self.req_w, b"R")
         payload = struct.pack("<Q", len(data)) + data
         view = memoryview(payload)
